@@ -18,6 +18,7 @@ var _ = vp.Reg("PaletteChunk", H_PaletteChunk)
 var _ = vp.Reg("Delivered", H_Delivered)
 var _ = vp.Reg("EncoderViewBox", H_EncoderViewBox)
 var _ = vp.Reg("ViewBoxCodec", H_ViewBoxCodec)
+var _ = vp.Reg("ViewBoxChunk", H_ViewBoxChunk)
 
 func sameVB(a, b ivg.ViewBox) bool {
 	return vp.All(vp.SameF32(a.MinX, b.MinX), vp.SameF32(a.MinY, b.MinY), vp.SameF32(a.MaxX, b.MaxX), vp.SameF32(a.MaxY, b.MaxY))
@@ -141,4 +142,47 @@ func smallCoord(name string) float32 {
 	b := vp.U8(name)
 	vp.Assume(b < 128)
 	return float32(int32(b) - 64)
+}
+
+// H_ViewBoxChunk: a viewBox chunk whose four coordinates have freely chosen
+// widths: one coordinate (chosen symbolically) is 1, 2 or 4 arbitrary bytes,
+// the others arbitrary 1-byte forms; the declared chunk length is correct.
+// Accepted exactly when the box is finite and not inverted; delivered as decoded.
+func H_ViewBoxChunk() {
+	hot := vp.Choice("hot", 4)
+	width := 1 << vp.Choice("width", 3)
+	var body []byte
+	for j := 0; j < 4; j++ {
+		if j == hot {
+			x := vp.Bytes("wide", width)
+			want := byte(0)
+			if width == 2 {
+				want = 1
+			} else if width == 4 {
+				want = 3
+			}
+			vp.Assume(x[0]&3 == want || (width == 1 && x[0]&1 == 0))
+			body = append(body, x...)
+		} else {
+			x := vp.Bytes("narrow", 1)
+			vp.Assume(x[0]&1 == 0)
+			body = append(body, x...)
+		}
+	}
+	src := []byte{0x89, 0x49, 0x56, 0x47, 0x02, byte(2 * (1 + len(body))), 0x00}
+	src = append(src, body...)
+	vp.ReadOnly(src)
+	var d rec.Dest
+	err := decode.Decode(&d, src)
+	want, _, ok := ref.Metadata(src[4:])
+	vb, err2 := decode.DecodeViewBox(src)
+	vp.Assert((err == nil) == ok, "viewBox accepted exactly when finite and not inverted")
+	vp.Assert((err2 == nil) == ok, "metadata-only decoding validates the same things")
+	if !ok || err != nil {
+		vp.Reach("rejected")
+		vp.Assert(len(d.Log) == 0, "nothing is delivered for an invalid viewBox")
+		return
+	}
+	vp.Reach("accepted")
+	vp.Assert(vp.And(sameVB(d.ViewBox, want.ViewBox), sameVB(vb, want.ViewBox)), "the viewBox delivered (and returned by DecodeViewBox) is the stored one")
 }
